@@ -1177,7 +1177,7 @@ impl<'a> Tokenizer<'a> {
                                 _ => self.start_binop(chars, "#>", Token::HashArrow),
                             }
                         }
-                        Some(' ') => Ok(Some(Token::Sharp)),
+                        Some(s) if s.is_whitespace() => Ok(Some(Token::Sharp)),
                         Some(sch) if self.dialect.is_identifier_start('#') => {
                             self.tokenize_identifier_or_keyword([ch, *sch], chars)
                         }
@@ -1192,14 +1192,14 @@ impl<'a> Tokenizer<'a> {
                         Some('@') => {
                             chars.next();
                             match chars.peek() {
-                                Some(' ') => Ok(Some(Token::AtAt)),
+                                Some(s) if s.is_whitespace() => Ok(Some(Token::AtAt)),
                                 Some(tch) if self.dialect.is_identifier_start('@') => {
                                     self.tokenize_identifier_or_keyword([ch, '@', *tch], chars)
                                 }
                                 _ => Ok(Some(Token::AtAt)),
                             }
                         }
-                        Some(' ') => Ok(Some(Token::AtSign)),
+                        Some(s) if s.is_whitespace() => Ok(Some(Token::AtSign)),
                         Some(sch) if self.dialect.is_identifier_start('@') => {
                             self.tokenize_identifier_or_keyword([ch, *sch], chars)
                         }
